@@ -112,24 +112,19 @@ Lemma resume_transition : forall k vals s r s1, Inv s -> co_resume k vals s = (r
      stof s k = Some Suspended /\ stof s1 k = Some Running /\ current s1 = Some k /\
      (forall p, current s = Some p -> stof s p = Some Running /\ stof s1 p = Some Normal) /\
      (forall j, j <> k -> current s <> Some j -> stof s1 j = stof s j)) /\
-  (r <> COk -> current s1 = current s /\ forall j, stof s1 j = stof s j).
+  (r <> COk -> s1 = s).
 Proof.
-  intros k vals s r s1 I H. unfold co_resume in H.
-  destruct (match vals with [] => (COk, s) | _ :: _ => co_push k vals s end) as [r1 sp] eqn:P.
-  assert (Sp : same_ctl s sp) by (destruct vals; [inversion P; subst; apply same_ctl_refl|eapply co_push_same; eauto]).
-  pose proof (same_ctl_Inv _ _ Sp I) as Ip. pose proof (same_ctl_current _ _ Sp) as Cp.
-  destruct r1.
-  - destruct (mco_resume k sp) as [e s2] eqn:R. inversion H; subst s2. split.
-    + intro X. destruct e; simpl in H; inversion H; try discriminate; try (subst r; discriminate).
-      destruct (mco_resume_exact _ _ _ Ip R) as (A1 & A2 & A3 & A4 & A5).
-      rewrite (same_ctl_stof' _ _ k Sp) in A1. rewrite Cp in A4, A5.
-      split; [exact A1|]. split; [exact A2|]. split; [exact A3|]. split.
-      * intros p Q. destruct (A4 p Q) as (B1 & B2). rewrite (same_ctl_stof' _ _ p Sp) in B1. auto.
-      * intros j N1 N2. rewrite (A5 j N1 N2). apply same_ctl_stof'. assumption.
-    + intro X. assert (Ne : e <> MCO_SUCCESS) by (intro; subst e; simpl in H; inversion H; subst; contradiction).
-      rewrite (mco_resume_err _ _ _ _ R Ne). split; [exact Cp|]. intro j. apply same_ctl_stof'. assumption.
-  - inversion H; subst. split; [discriminate|]. intros _. split; [exact Cp|]. intro j. apply same_ctl_stof'. assumption.
-  - inversion H; subst. split; [discriminate|]. intros _. split; [exact Cp|]. intro j. apply same_ctl_stof'. assumption.
+  intros k vals s r s1 I H.
+  destruct (co_resume_cases _ _ _ _ _ I H) as [(-> & sp & P & R)|((e & ->) & ->)].
+  - split; [|intro X; contradiction]. intros _.
+    assert (Sp : same_ctl s sp) by (destruct vals; [inversion P; subst; apply same_ctl_refl|eapply co_push_same; eauto]).
+    pose proof (same_ctl_Inv _ _ Sp I) as Ip. pose proof (same_ctl_current _ _ Sp) as Cp.
+    destruct (mco_resume_exact _ _ _ Ip R) as (A1 & A2 & A3 & A4 & A5).
+    rewrite (same_ctl_stof' _ _ k Sp) in A1. rewrite Cp in A4, A5.
+    split; [exact A1|]. split; [exact A2|]. split; [exact A3|]. split.
+    + intros p Q. destruct (A4 p Q) as (B1 & B2). rewrite (same_ctl_stof' _ _ p Sp) in B1. auto.
+    + intros j N1 N2. rewrite (A5 j N1 N2). apply same_ctl_stof'. assumption.
+  - split; [discriminate|reflexivity].
 Qed.
 
 (* coroutine.yield(...) executed by the running coroutine k *)
@@ -236,7 +231,7 @@ Lemma failed_call_transition : forall o s r s' j, Inv s -> api o s = Some (CErr 
 Proof.
   intros o s r s' j I H. destruct o; simpl in H; try discriminate.
   - inversion H as [H1]. destruct (resume_transition _ _ _ _ _ I H1) as (_ & F).
-    destruct (F ltac:(discriminate)) as (A & B). auto.
+    rewrite (F ltac:(discriminate)). auto.
   - inversion H as [H1]. unfold co_yield in H1.
     destruct (current s) as [k|] eqn:Ecur; [|inversion H1; subst; auto].
     destruct (current_running _ _ I Ecur) as (c & G & _).
@@ -307,8 +302,8 @@ Proof.
           * destruct (A4 p eq_refl) as (_ & B2). intros (_ & B). congruence.
           * rewrite (A5 j N) by congruence. apply nu_same.
         + rewrite (A5 j N) by discriminate. apply nu_same.
-      - destruct (T2 ltac:(discriminate)) as (_ & B). rewrite B. apply nu_same.
-      - destruct (T2 ltac:(discriminate)) as (_ & B). rewrite B. apply nu_same. }
+      - rewrite (T2 ltac:(discriminate)). apply nu_same.
+      - rewrite (T2 ltac:(discriminate)). apply nu_same. }
     destruct r; simpl; try exact X.
     destruct (arrive k s1) as [s2 ls] eqn:A. simpl.
     assert (S2 : same_ctl s1 s2).
